@@ -64,6 +64,9 @@ LOAD = {
     'set_entries':          lambda n: '!!set\n' + _lines('? e%(i)07d\n', n),
     'omap_entries':         lambda n: '!!omap\n' + _lines('- k%(i)07d: v\n', n),
     'merge_keys':           lambda n: 'base: &b {x: 1, y: 2}\nl:\n' + _lines('  - {<<: *b, z: %(i)07d}\n', n),
+    'merge_large_base':     lambda n: 'base: &b\n' + _lines('  x%(i)07d: 1\n', n) + 'derived:\n  <<: *b\n' + _lines('  y%(i)07d: 2\n', n),
+    'merge_overriding':     lambda n: 'base: &b\n' + _lines('  x%(i)07d: 1\n', n) + 'derived:\n  <<: *b\n' + _lines('  x%(i)07d: 2\n', n),
+    'merge_list_sources':   lambda n: _lines('s%(i)07d: &s%(i)07d {a%(i)07d: 1}\n', n) + 'all:\n  <<: [' + ', '.join('*s%07d' % i for i in range(n)) + ']\n',
     # many documents
     'documents':            lambda n: _lines('--- d%(i)07d\n', n),
     'documents_explicit_end': lambda n: _lines('--- d%(i)07d\n...\n', n),
